@@ -17,6 +17,15 @@ def main():
     random.seed(spec.get('seed', 0))
     mod = core.load_check(prop)
     acc = core.Acc(prop)
+    cov = None
+    if spec.get('reach'):
+        try:  # statement reach of the code under observation (evidence only; sys.monitoring core keeps the overhead small)
+            os.environ.setdefault('COVERAGE_CORE', 'sysmon')
+            import coverage
+            cov = coverage.Coverage(data_file=None, source=[os.path.join(core.REPO_SRC, 'bare_script')], branch=False)
+            cov.start()
+        except Exception:  # pylint: disable=broad-except
+            cov = None
     try:
         if spec.get('mode') == 'replay':
             mod.replay(spec, acc)
@@ -34,8 +43,23 @@ def main():
                           {'shard': spec.get('part'), 'exception': type(exc).__name__})
         else:
             raise
+    res = acc.result()
+    if cov is not None:
+        try:
+            cov.stop()
+            data = cov.get_data()
+            reach = {}
+            for f in data.measured_files():
+                try:
+                    executable = cov.analysis2(f)[1]
+                except Exception:  # pylint: disable=broad-except
+                    executable = []
+                reach[os.path.relpath(f, core.REPO_SRC)] = {'executed': sorted(data.lines(f) or []), 'executable': len(executable)}
+            res['reach'] = reach
+        except Exception:  # pylint: disable=broad-except
+            pass
     with open(out_path, 'w', encoding='utf-8') as fh:
-        json.dump(acc.result(), fh, default=repr)
+        json.dump(res, fh, default=repr)
 
 
 if __name__ == '__main__':
